@@ -71,6 +71,9 @@ def gen_plan(rng, tier, index):
         elif rng.chance(0.15):
             fops.append({'op': 'edit_resave', 't': rng.randrange(1000), 'p': rng.randrange(1000), 'seed': rng.randrange(10 ** 5),
                          'ft': rng.pick(['hdf5', 'hdf5', 'pkl'])})
+        elif rng.chance(0.1):
+            # two saves in flight at once (two worker threads of one analysis, each storing its own result under its own name)
+            fops.append({'op': 'concurrent_saves', 't': rng.randrange(1000), 'seed': rng.randrange(10 ** 6)})
         elif rng.chance(0.25):
             # the object read from a file is itself saved again (an analysis that loads, and stores under another name)
             fops.append({'op': 'load_resave', 'p': rng.randrange(1000), 'ft': rng.pick(['hdf5', 'hdf5', 'pkl'])})
@@ -498,6 +501,8 @@ def execute(plan, ctx):
                 ctx.probe('edit_resave')
             elif o['op'] == 'load_resave':
                 _do_load_resave(ctx, pool, fs, files, kind, o)
+            elif o['op'] == 'concurrent_saves':
+                _do_concurrent_saves(ctx, pool, fs, files, objs, kind, o)
             elif o['op'] == 'gc':
                 import gc
                 ctx.tick('gc')
@@ -631,6 +636,85 @@ def _do_load(ctx, pool, fs, files, kind, o):
             _load_and_compare(ctx, pool, fs, e, kind, e['path'], 'path')
     if e.get('crash'):
         _load_and_compare(ctx, pool, fs, e, kind, e['crash'], 'crash-snapshot')
+
+
+def _do_concurrent_saves(ctx, pool, fs, files, objs, kind, o):
+    """two pickle saves by path, to two different names in one folder, run by two threads that are switched at the file
+    seam's open / write calls by a seeded scheduler (exactly one thread runs at any time): each file reads back equal to the
+    object that was saved under its name"""
+    import random as _random
+    import threading
+    sa = objs[o['t'] % len(objs)]
+    sb = objs[(o['t'] // 7 + 1) % len(objs)]
+    pair = [(sa, fs.new_path('pkl')), (sb, fs.new_path('pkl'))]
+    twins = [rec_any(s_.obj) for s_, _ in pair]
+    r = _random.Random(o['seed'])
+    st = {'turn': 0, 'done': [False, False], 'err': [None, None], 'switches': 0}
+    cond = threading.Condition()
+    ident = {}
+
+    def yield_point(what):
+        me = ident.get(threading.get_ident())
+        if me is None:
+            return
+        other = 1 - me
+        with cond:
+            if not st['done'][other] and r.random() < 0.5:
+                st['switches'] += 1
+                ctx.tick('sched', switch_to=other, at=what)
+                st['turn'] = other
+                cond.notify_all()
+                while st['turn'] != me:
+                    cond.wait()
+
+    def worker(me):
+        ident[threading.get_ident()] = me
+        with cond:
+            while st['turn'] != me:
+                cond.wait()
+        try:
+            pair[me][0].obj.save(pair[me][1], file_type='pkl')
+        except BaseException as ex:       # noqa
+            ex.__traceback__ = None
+            st['err'][me] = ex
+        with cond:
+            st['done'][me] = True
+            st['turn'] = 1 - me
+            cond.notify_all()
+
+    for me in (0, 1):
+        fs.tick('save', target=fs.rel(pair[me][1]), ft='pkl', overwrite=False, fault=None, obj=pair[me][0].sid, concurrent=me)
+    fs.on_io = yield_point
+    threads = [threading.Thread(target=worker, args=(me,), daemon=True) for me in (0, 1)]
+    try:
+        for t_ in threads:
+            t_.start()
+        for t_ in threads:
+            t_.join(60)
+        if any(t_.is_alive() for t_ in threads):
+            raise HarnessError('concurrent_saves: the two saving threads did not finish')
+    finally:
+        fs.on_io = None
+    ctx.probe('concurrent_saves')
+    ctx.probe('concurrent_save_switches', st['switches'])
+    for me in (0, 1):
+        if st['err'][me] is not None:
+            ex = st['err'][me]
+            ctx.violation('fs_model.save_raises', f'save:{kind}:pkl:concurrent:raises:{type(ex).__name__}',
+                          f'one of two pickle saves in flight at once (different target names, same folder) raised '
+                          f'{type(ex).__name__}: {str(ex)[:200]}')
+            return
+    for me in (0, 1):
+        slot, path = pair[me]
+        try:
+            frozen = slot.obj.copy() if hasattr(slot.obj, 'copy') else slot.obj
+        except Exception:
+            frozen = slot.obj
+        e = {'path': path, 'ft': 'pkl', 'kind': kind, 'twin': twins[me], 'handle': None, 'crash': None, 'obj': frozen,
+             'via': 'concurrent', 'overwrite': False}
+        files.entries.append(e)
+        _load_and_compare(ctx, pool, fs, e, kind, path, 'path')
+    ctx.behaviour('save', kind, 'concurrent', st['switches'] > 0)
 
 
 def _do_load_resave(ctx, pool, fs, files, kind, o):
